@@ -73,6 +73,12 @@ RMinSeq(s) == IF Len(s) = 1 THEN s[1] ELSE RMin(Head(s), RMinSeq(Tail(s)))   \* 
 RECURSIVE RMaxSeq(_)
 RMaxSeq(s) == IF Len(s) = 1 THEN s[1] ELSE RMax(Head(s), RMaxSeq(Tail(s)))
 
+\* smallest element of a non-empty set of rationals (one pass)
+RECURSIVE MinFrom(_, _)
+MinFrom(S, cur) == IF S = {} THEN cur
+                   ELSE B2(LAMBDA x, c : MinFrom(S \ {x}, IF CmpV(x, c) < 0 THEN x ELSE c), CHOOSE y \in S : TRUE, cur)
+RSetMin(S) == B1(LAMBDA x : MinFrom(S \ {x}, x), CHOOSE y \in S : TRUE)
+
 \* 2^k for 0 <= k <= 30
 RECURSIVE Pow2(_)
 Pow2(k) == IF k = 0 THEN 1 ELSE 2 * Pow2(k - 1)
